@@ -346,8 +346,10 @@ struct Value {
     }
 
     Value &operator=(const Char_T *str) {
+        StringT n_str{str}; // 'str' may point into what this value owns: copy it before releasing anything.
+
         reset();
-        string_ = StringT{str};
+        string_ = Memory::Move(n_str);
         setTypeToString();
 
         return *this;
